@@ -66,6 +66,15 @@ CLAIMED = {
          "column slice, column reverse, ufunc, row sums, row assignment, column assignment; thorough adds shape/iter/tolist/nonzero/whole assignment): the probe on d equals the probe on "
          "an array freshly built from d's rows, and assigning into d leaves a unchanged (a[...] excepted)",
          "bounds: depth 1: all 18 steps x probes, rows<=2 (3), length<=3, parameters +-2; depth 2: 12 fixed + 8 seed-rotated (thorough: all 100) pairs of view steps; thorough depth 3 over 5 view steps"),
+ "C10": ("4/C10", "relational over histories: construct a; b = a[selection]; optionally c = b[selection]; a write to a, b or c; final read of every array -- with and "
+         "without a read-only operation (repr, str, iteration, ravel, view-index, integer row, element, ufunc, row sums, np.sum, tolist, shape, nonzero) inserted at each position, on "
+         "the same symbolic input in one path; final observations must be equal.  Single-operation form: a read leaves its operand's observation unchanged.  Open known finding "
+         "KF-C10-1 (selection aliases its source until first materialising read) excluded by its skeleton predicate only while its witness still fails",
+         "bounds: rows<=2, length<=2 (3), parameters +-2; quick: single-op all reads x 4 operands, 3-step core + 60 seed-rotated of 2730 skeletons, 24 of 192 depth-2; thorough: all"),
+ "C19": ("4/C19", "relational over configurations: bodies of the C01-C05, C07-C09 harnesses (71 instances: row/column selector grid incl. stepped and reversed row slices, "
+         "assignment, reductions, scans, structural functions, geometry probes, column aggregates, ufunc column broadcast) executed under ViewBase.set_dtype(int64) and set_dtype(int32) "
+         "on the same symbolic input in one path; cells, row lengths, raised-or-not must be equal; the 32-bit (start,length) gather through a uint64 view is modelled bit-exactly",
+         "bounds: those of the underlying quick harnesses with rows<=2-3; index arrays' own dtype (int32 vs int64) is not compared"),
  "C05": ("4/C05", "sum/prod/any/all/max/min and bitwise_or/xor/and.reduce per row through the method, np.<func> and ufunc.reduce entry points, keepdims, "
          "and axis=None, over symbolic row lengths with empty rows anywhere (all-empty and zero rows included); multiplication as an uninterpreted left fold",
          "bounds: rows<=4 (5), row length<=3 (4); max/min with non-empty rows; result element type not compared (C04's subject); mean/argmax/argmin not yet covered"),
